@@ -83,7 +83,8 @@ let () =
      cobj   (kind within k trials mtr)     kind: atmost|atleast|exactlyk|exactlyrow|pin|mintrials|nogeom
                                            within: none | geom     mtr: none | int
      desc   (KIND geom (c ..) (copied ..))  KIND: leaf | (repeat i) | (merge (i ..)) | (nest o i inner_len) | skip
-     (hist18 (cobj ..) (desc ..))  -> per build "(SUMMARY (cobj ..))": summary none | ((kind within k trials) ..), then the store
+     (hist18 (cobj ..) (desc ..))  -> per build "(SUMMARY (cobj ..) (cobj ..))": summary none | ((kind within k trials) ..),
+                                      then the whole store, then the new block's orig_constraints with all fields
      (twin18 (cobj ..) (desc ..) i) -> summary of block i when only its dependency closure is built from fresh objects
      (writes18)                                                                                           *)
 module R = Reuse
@@ -129,7 +130,8 @@ let () =
     let outs = Stdlib.List.map (fun d ->
         let (s1, o) = R.build !st d in
         st := s1;
-        "(" ^ show_summary o ^ " " ^ show_list show_cobj (R.store_list s1) ^ ")") (list_of_sexp desc_of ds) in
+        "(" ^ show_summary o ^ " " ^ show_list show_cobj (R.store_list s1) ^ " "
+        ^ show_list show_cobj (R.last_entries s1) ^ ")") (list_of_sexp desc_of ds) in
     Stdlib.String.concat " " outs
     | _ -> "!args");
   register "twin18" (function [user; ds; i] ->
